@@ -288,6 +288,9 @@ func runIODiscipline(p *Program, r *Report) {
 
 	// R13d.
 	runRestoreGate(p, r, entries)
+
+	// R13f.
+	checkRecordBufferRewritten(p, r, reach)
 }
 
 // ---------------------------------------------------------------------------
@@ -778,4 +781,242 @@ func callbackCanFail(cond ssa.Value) bool {
 		}
 	}
 	return true
+}
+
+// ---------------------------------------------------------------------------
+// R13f RECORD-BUFFER-REWRITTEN. A record buffer that outlives one record (it
+// is declared outside the per-element callback or loop that writes it to the
+// sink) carries the previous record's bytes into the next one. Every byte that
+// the repeated region assigns at all must therefore be assigned on EVERY path
+// from the region's entry to the write - a flag byte set under `if x` and
+// never cleared stays set for all later records.
+
+type bufStore struct {
+	blk    *ssa.BasicBlock
+	idx    int // position of the storing instruction in blk
+	lo, hi int64
+	in     ssa.Instruction
+}
+
+// bufferBase resolves the array behind a slice operand: the Alloc or FreeVar
+// of array-pointer type.
+func bufferBase(v ssa.Value) ssa.Value {
+	for i := 0; i < 6; i++ {
+		switch x := v.(type) {
+		case *ssa.Slice:
+			v = x.X
+		case *ssa.Alloc, *ssa.FreeVar:
+			if pt, ok := x.Type().Underlying().(*types.Pointer); ok {
+				if _, ok := pt.Elem().Underlying().(*types.Array); ok {
+					return x
+				}
+			}
+			return nil
+		default:
+			return nil
+		}
+	}
+	return nil
+}
+
+func constInt(v ssa.Value, def int64) int64 {
+	if v == nil {
+		return def
+	}
+	if c, ok := v.(*ssa.Const); ok && c.Value != nil {
+		return c.Int64()
+	}
+	return -1
+}
+
+func checkRecordBufferRewritten(p *Program, r *Report, reach map[*ssa.Function]bool) {
+	rule := "R13f"
+	r.Rule(rule, "RECORD-BUFFER-REWRITTEN: a record buffer declared outside the per-element callback or loop that writes it to the sink has every byte the region assigns assigned on every path to the write (no byte carries over from the previous record)")
+	n := 0
+	for _, fn := range sortedFuncs(p, reach) {
+		if fn.Blocks == nil || !p.owns(fn) {
+			continue
+		}
+		for _, sc := range callsIn(p, fn) {
+			if ioCallKind(p, sc.call.Common()) != "write" {
+				continue
+			}
+			args := sc.call.Common().Args
+			if len(args) == 0 {
+				continue
+			}
+			base := bufferBase(args[len(args)-1])
+			if base == nil {
+				continue
+			}
+			arr := base.Type().Underlying().(*types.Pointer).Elem().Underlying().(*types.Array)
+			wb := sc.call.Block()
+			// the repeated region and whether the buffer outlives it
+			var entry *ssa.BasicBlock
+			region := ""
+			if _, isFree := base.(*ssa.FreeVar); isFree {
+				entry, region = fn.Blocks[0], "callback"
+			} else if h := innermostLoopHeader(wb); h != nil {
+				if al, ok := base.(*ssa.Alloc); ok && !loopContains(h, al.Block()) {
+					entry, region = h, "loop"
+				}
+			}
+			if entry == nil {
+				continue
+			}
+			n++
+			key := fmt.Sprintf("%s->%s#%d/buffer", p.FuncName(fn), sc.label, sc.ord)
+			// stores into the buffer inside the region
+			var stores []bufStore
+			undecided := ""
+			for _, b := range fn.Blocks {
+				if region == "loop" && !loopContains(entry, b) {
+					continue
+				}
+				for i, in := range b.Instrs {
+					switch x := in.(type) {
+					case *ssa.Store:
+						ia, ok := x.Addr.(*ssa.IndexAddr)
+						if !ok || ia.X != base {
+							continue
+						}
+						k := constInt(ia.Index, -1)
+						if k < 0 {
+							undecided = "element store with a computed index"
+							continue
+						}
+						stores = append(stores, bufStore{b, i, k, k + 1, in})
+					case *ssa.Call:
+						cc := x.Common()
+						var dst ssa.Value
+						width := int64(-1)
+						if bn := builtinName(cc); bn == "copy" && len(cc.Args) == 2 {
+							dst = cc.Args[0]
+						} else if f := calleeFunc(cc); f != nil && f.Pkg() != nil && f.Pkg().Path() == "encoding/binary" && strings.HasPrefix(f.Name(), "PutUint") && len(cc.Args) >= 2 {
+							dst = cc.Args[len(cc.Args)-2]
+							switch f.Name() {
+							case "PutUint16":
+								width = 2
+							case "PutUint32":
+								width = 4
+							case "PutUint64":
+								width = 8
+							}
+						}
+						if dst == nil || bufferBase(dst) != base {
+							continue
+						}
+						sl, ok := dst.(*ssa.Slice)
+						if !ok {
+							continue
+						}
+						lo, hi := constInt(sl.Low, 0), constInt(sl.High, arr.Len())
+						if lo < 0 || hi < 0 {
+							undecided = "slice of the buffer with computed bounds"
+							continue
+						}
+						if width > 0 && lo+width < hi {
+							hi = lo + width
+						}
+						// copy(dst, src) fills min(len(dst), len(src)): exact only when the source is a whole array / hash of that size
+						if width < 0 && len(cc.Args) == 2 {
+							if n := staticLen(cc.Args[1]); n >= 0 && lo+n < hi {
+								hi = lo + n
+							} else if n < 0 {
+								undecided = "copy into the buffer from a source of unknown length"
+								continue
+							}
+						}
+						stores = append(stores, bufStore{b, i, lo, hi, in})
+					}
+				}
+			}
+			// write position inside its block
+			wi := 0
+			for i, in := range wb.Instrs {
+				if in == ssa.Instruction(sc.call) {
+					wi = i
+				}
+			}
+			// per assigned byte: is there a path entry -> write that avoids every store covering it?
+			var stale []int64
+			var staleAt ssa.Instruction
+			for k := int64(0); k < arr.Len(); k++ {
+				var cov []bufStore
+				for _, s := range stores {
+					if s.lo <= k && k < s.hi {
+						cov = append(cov, s)
+					}
+				}
+				if len(cov) == 0 {
+					continue
+				}
+				blocked := func(b *ssa.BasicBlock, upto int) bool {
+					for _, s := range cov {
+						if s.blk == b && (upto < 0 || s.idx < upto) {
+							return true
+						}
+					}
+					return false
+				}
+				seen := map[*ssa.BasicBlock]bool{}
+				var dfs func(b *ssa.BasicBlock) bool
+				dfs = func(b *ssa.BasicBlock) bool {
+					if b == wb {
+						return !blocked(b, wi)
+					}
+					if seen[b] || blocked(b, -1) {
+						return false
+					}
+					seen[b] = true
+					for _, s := range b.Succs {
+						if region == "loop" && (!loopContains(entry, s) || s == entry) {
+							continue
+						}
+						if dfs(s) {
+							return true
+						}
+					}
+					return false
+				}
+				start := entry
+				if dfs(start) {
+					stale = append(stale, k)
+					if staleAt == nil {
+						staleAt = cov[0].in
+					}
+				}
+			}
+			switch {
+			case len(stale) > 0:
+				r.Violate(rule, key, posOf(p, staleAt), fmt.Sprintf("byte(s) %v of the record buffer %s are assigned on some paths of the %s only; on the other paths the record is written with the value left by a previous record", stale, base.Name(), region), "in "+p.FuncName(fn))
+			case undecided != "":
+				r.Undecided(rule, key, posOf(p, sc.call), undecided)
+			default:
+				r.Discharge(rule, key, posOf(p, sc.call), fmt.Sprintf("every byte of %s that the %s assigns (%d stores) is assigned on every path to the write", base.Name(), region, len(stores)), len(stores) > 0)
+			}
+		}
+	}
+	r.Floor(rule, "writes of a record buffer that outlives the record", n, 3)
+}
+
+// staticLen: length of a slice expression's source when it is fixed by types:
+// x[:] / x[a:b] of an array, or constant bounds.
+func staticLen(v ssa.Value) int64 {
+	sl, ok := v.(*ssa.Slice)
+	if !ok {
+		return -1
+	}
+	total := int64(-1)
+	if pt, ok := sl.X.Type().Underlying().(*types.Pointer); ok {
+		if a, ok := pt.Elem().Underlying().(*types.Array); ok {
+			total = a.Len()
+		}
+	}
+	lo := constInt(sl.Low, 0)
+	hi := constInt(sl.High, total)
+	if lo < 0 || hi < 0 {
+		return -1
+	}
+	return hi - lo
 }
